@@ -35,24 +35,30 @@ DecodeName(bs, ar, ht, bt, nb, data) ==
                     LET dv == RefReadFile(bs, ar, ht, bt, nb, DialectOf(subs[di]))
                     IN  [labels |-> LabelSeq(subs[di]), v |-> FileOut(dv), rawsame |-> RawSame(dv, data)]] ]
 
+\* a file that was added under a non-neutral locale: looked up by (name, locale); standard format only
+DecodeLoc(bs, ar, ht, bt, lf) ==
+  LET std == RefReadFileL(bs, ar, ht, bt, lf.nb, lf.locale, Std)
+  IN  [nb |-> lf.nb, locale |-> lf.locale, std |-> FileOut(std), rawsame |-> RawSame(std, lf.data)]
+
 Listfile == <<40,108,105,115,116,102,105,108,101,41>>       \* "(listfile)"
 
 Decode(r) ==
   IF r.res # "ok" THEN [case |-> r.case, open |-> "notbuilt", base |-> -1, alen |-> 0, hn |-> NoHeaderNat,
-                        files |-> <<>>, absent |-> <<>>, listfile |-> <<>>]
+                        files |-> <<>>, locfiles |-> <<>>, absent |-> <<>>, listfile |-> <<>>]
   ELSE
   LET bs == r.bytes
       ar == OpenArchive(bs)
   IN  IF ar.res = "noheader"
       THEN [case |-> r.case, open |-> ar.res, base |-> -1, alen |-> 0, hn |-> NoHeaderNat,
-            files |-> <<>>, absent |-> <<>>, listfile |-> <<>>]
+            files |-> <<>>, locfiles |-> <<>>, absent |-> <<>>, listfile |-> <<>>]
       ELSE IF ar.res # "ok"
       THEN [case |-> r.case, open |-> ar.res, base |-> ar.base, alen |-> ar.alen, hn |-> ar.hn,
-            files |-> <<>>, absent |-> <<>>, listfile |-> <<>>]
+            files |-> <<>>, locfiles |-> <<>>, absent |-> <<>>, listfile |-> <<>>]
       ELSE LET ht == HashTableOf(bs, ar.base, ar.hn)
                bt == BlockTableOf(bs, ar.base, ar.hn)
            IN  [ case |-> r.case, open |-> "ok", base |-> ar.base, alen |-> ar.alen, hn |-> ar.hn,
                  files  |-> [fi \in 1..Len(r.files) |-> DecodeName(bs, ar, ht, bt, r.files[fi].nb, r.files[fi].data)],
+                 locfiles |-> [li \in 1..Len(r.locfiles) |-> DecodeLoc(bs, ar, ht, bt, r.locfiles[li])],
                  absent |-> [ai \in 1..Len(r.absent) |-> RefReadFile(bs, ar, ht, bt, r.absent[ai].nb, Std).res],
                  listfile |-> << DecodeName(bs, ar, ht, bt, Listfile, <<>>) >> ]
 
